@@ -140,9 +140,6 @@ namespace {
                 out.push_back( d );
             }
             for ( size_t i = 0; i < c.prog[t].size(); ++i ) {
-                if ( c.prog[t].size() <= 1 && !s.sequential && c.prog.size() <= size_t( s.min_threads ))
-                    if ( c.prog[t].empty())
-                        continue;
                 Case d = c;
                 d.prog[t].erase( d.prog[t].begin() + long( i ));
                 out.push_back( d );
@@ -316,6 +313,7 @@ int main( int argc, char** argv )
     long seed = 1;
     const char* replay = nullptr;
     int maxsize = 100;
+    int extra_at = -1;
     for ( int i = 1; i < argc; ++i ) {
         std::string a = argv[i];
         if ( a == "--cases" && i + 1 < argc )
@@ -336,6 +334,10 @@ int main( int argc, char** argv )
             while ( std::getline( ss, tok, ',' ))
                 if ( !tok.empty())
                     g_variants.push_back( atoi( tok.c_str()));
+        }
+        else if ( a == "--extra" ) {
+            extra_at = i + 1;
+            break;
         }
         else if ( a == "--schema" ) {
             printf( "{\"name\": \"%s\", \"sequential\": %s, \"variants\": [", s.name.c_str(), s.sequential ? "true" : "false" );
@@ -358,6 +360,18 @@ int main( int argc, char** argv )
     g_stats.prefix = g_prefix;
     g_stats.engine = "rapidcheck";
     set_abort_hook( abort_hook );
+    if ( extra_at >= 0 ) {
+        g_stats.engine = "enumeration";
+        if ( !harness_extra ) {
+            fprintf( stderr, "harness has no --extra mode\n" );
+            return 2;
+        }
+        int rc = harness_extra( argc - extra_at, argv + extra_at, g_stats );
+        g_stats.write();
+        printf( "EXTRA %s harness=%s evaluations=%llu distinct=%llu\n", rc == 0 ? "OK" : "FALSIFIED", s.name.c_str(),
+            (unsigned long long) g_stats.evaluations, (unsigned long long) g_stats.nt_hashes.size());
+        return rc;
+    }
     calibrate();
 
     // rapidcheck is configured only through RC_PARAMS
